@@ -640,17 +640,22 @@ func runRace(c Case) Out {
 	case <-time.After(limit):
 		o.Hung = []int{-1}
 	}
-	close(res)
-	for x := range res {
-		o.Total++
-		if x.ok {
-			o.OkCalls++
-		}
-		if x.ms > o.MaxMs {
-			o.MaxMs = x.ms
-		}
-		if x.ms > 500 {
-			o.Slow++
+collect:
+	for {
+		select {
+		case x := <-res:
+			o.Total++
+			if x.ok {
+				o.OkCalls++
+			}
+			if x.ms > o.MaxMs {
+				o.MaxMs = x.ms
+			}
+			if x.ms > 500 {
+				o.Slow++
+			}
+		default:
+			break collect
 		}
 	}
 	select {
